@@ -7,6 +7,7 @@ import (
 	"strings"
 
 	pipeline "github.com/buildkite/go-pipeline"
+	"github.com/buildkite/go-pipeline/ordered"
 	"github.com/google/go-cmp/cmp"
 
 	"verif/refmodel"
@@ -55,6 +56,7 @@ type c12Val struct {
 	List []c12Val
 	Map  []c12KV
 	Num  *int
+	Ord  bool // build the mapping as an ordered map instead of a plain Go map
 }
 
 func (v c12Val) build(f func(string) string) any {
@@ -67,6 +69,13 @@ func (v c12Val) build(f func(string) string) any {
 		out := make([]any, len(v.List))
 		for i, e := range v.List {
 			out[i] = e.build(f)
+		}
+		return out
+	case v.Map != nil && v.Ord:
+		// an ordered map, as a decoded document carries them (used by the unknown-token-in-a-key cases only)
+		out := ordered.NewMap[string, any](len(v.Map))
+		for _, kv := range v.Map {
+			out.Set(f(kv.K), kv.V.build(f))
 		}
 		return out
 	case v.Map != nil:
@@ -275,7 +284,18 @@ func checkC12(c *run.Ctx) {
 			if !anon && r.IntN(2) == 0 {
 				tok = "{{matrix}}"
 			}
-			switch r.IntN(6) {
+			switch r.IntN(8) {
+			case 6:
+				// in the key of a pair whose value interpolates cleanly, inside a plugin configuration (an ordered map)
+				s := "clean"
+				sp.PlugSources = append(sp.PlugSources, "pk")
+				sp.PlugCfg = append(sp.PlugCfg, c12Val{Ord: i%20 == 9, Map: []c12KV{{K: "a", V: c12Val{S: &s}}, {K: "k" + tok, V: c12Val{S: &s}}, {K: "z", V: c12Val{S: &s}}}})
+				planted = "pluginconfig_key"
+			case 7:
+				// in the key of a mapping nested below an unknown field of the step
+				s := "clean"
+				sp.Extras = append(sp.Extras, c12KV{K: "xnested", V: c12Val{Ord: i%20 == 9, Map: []c12KV{{K: "first", V: c12Val{S: &s}}, {K: tok, V: c12Val{List: []c12Val{{S: &s}}}}}}})
+				planted = "extra_nested_key"
 			case 0:
 				sp.Command += tok
 				planted = "command"
